@@ -36,6 +36,15 @@ def run(chk, args):
     chk.add_tlc(r, "Reparam derivations (650 program shapes)")
     if r["violated"]:
         chk.design_violation(r, "Reparam")
+    rs = vlib.tlc_must_pass("Subst", "Subst.cfg", timeout=1200)
+    chk.add_tlc(rs, "Subst: pasted translation text means the substituted tree (every expression of depth <= 2)")
+    if rs["violated"]:
+        chk.design_violation(rs, "Subst", {"class": "design-subst"})
+    ws = vlib.tlc("Subst", "Subst_bare.cfg", timeout=600)
+    if ws["violated"] != "PasteMeansSubstitution":
+        raise vlib.Machinery("vacuity control: Subst_bare (translations pasted without parentheses) should violate "
+                             "PasteMeansSubstitution, got %s / %s" % (ws["violated"], ws["error"]))
+    chk.notes["vacuity_control_subst"] = "Subst_bare.cfg violates PasteMeansSubstitution as it must"
     progs = vlib.parse_printed(r["out"], "PROGRAMS")[0]["progs"]
     progs.sort(key=lambda p: json.dumps(p, sort_keys=True))
     rng = random.Random(chk.seed)
